@@ -115,8 +115,25 @@ pub trait MemRawParts: Mem{
     unsafe fn from_raw_parts(handle: Self::Handle, element_layout: Layout, size: usize) -> Self;
 }
 
+/// Verification hook (off by default): the Miri toolchain of the verification
+/// sandbox renamed `Layout::dangling` to `Layout::dangling_ptr`. See `dangling`.
+#[cfg(all(miri, any_vec_verif))]
+mod verif_miri_shim{
+    use core::alloc::Layout;
+    use core::ptr::NonNull;
+    pub(super) struct LayoutShim(pub(super) Layout);
+    impl LayoutShim{
+        #[inline]
+        pub(super) const fn dangling(&self) -> NonNull<u8>{
+            self.0.dangling_ptr()
+        }
+    }
+}
+
 #[inline]
 const fn dangling(layout: &Layout) -> NonNull<u8>{
+    #[cfg(all(miri, any_vec_verif))]
+    let layout = &verif_miri_shim::LayoutShim(*layout);
     #[cfg(miri)]
     {
         layout.dangling()
